@@ -116,6 +116,44 @@ def multiHistoryCmd (nl : Nat) (ops : List Sexp) : Sexp :=
       | _ => go ls (acc.push (.atom "bad-op")) rest
   .list (go (List.replicate nl {}) #[] ops).toList
 
+/-- children of a Multi in a forest of loaders shared by reference -/
+inductive MChild where
+  | leaf (i : Nat)
+  | multi (i : Nat)
+
+/-- the loader a Multi denotes *now*: its children resolved against the current stacks (fuel bounds the
+    nesting depth; the generator only nests a Multi into one with a smaller index) -/
+def resolveMulti (leaves : List Loaders.InMem) (stacks : List (List MChild)) : Nat → Nat → Loaders.Loader
+  | 0, _ => Loaders.multi []
+  | fuel + 1, i =>
+    Loaders.multi ((stacks.getD i []).map fun c => match c with
+      | .leaf j => (leaves.getD j {}).toLoader
+      | .multi j => resolveMulti leaves stacks fuel j)
+
+/-- `(multi-tree nl nm op...)`: `nl` in-memory loaders and `nm` Multi loaders, nested and edited while queried -/
+def multiTreeCmd (nl nm : Nat) (ops : List Sexp) : Sexp :=
+  let rec go (ls : List Loaders.InMem) (ms : List (List MChild)) (acc : Array Sexp) : List Sexp → Array Sexp
+    | [] => acc
+    | op :: rest =>
+      let nat (a : String) := a.toNat?.getD 0
+      match op with
+      | .list [.atom "set", .atom i, .bytes p, .bytes c] =>
+        go (ls.mapIdx fun j l => if j == nat i then l.set p c else l) ms (acc.push (.atom "ok")) rest
+      | .list [.atom "del", .atom i, .bytes p] =>
+        go (ls.mapIdx fun j l => if j == nat i then l.delete p else l) ms (acc.push (.atom "ok")) rest
+      | .list [.atom "add", .atom i, .list [.atom "leaf", .atom j]] =>
+        go ls (ms.mapIdx fun k st => if k == nat i then st ++ [.leaf (nat j)] else st) (acc.push (.atom "ok")) rest
+      | .list [.atom "add", .atom i, .list [.atom "multi", .atom j]] =>
+        go ls (ms.mapIdx fun k st => if k == nat i then st ++ [.multi (nat j)] else st) (acc.push (.atom "ok")) rest
+      | .list [.atom "clear", .atom i] =>
+        go ls (ms.mapIdx fun k st => if k == nat i then [] else st) (acc.push (.atom "ok")) rest
+      | .list [.atom "exists", .atom i, .bytes p] =>
+        go ls ms (acc.push (Sexp.ofBool ((resolveMulti ls ms (nm + 1) (nat i)).exists_ p))) rest
+      | .list [.atom "open", .atom i, .bytes p] =>
+        go ls ms (acc.push (optBytes ((resolveMulti ls ms (nm + 1) (nat i)).open_ p))) rest
+      | _ => go ls ms (acc.push (.atom "bad-op")) rest
+  .list (go (List.replicate nl {}) (List.replicate nm []) #[] ops).toList
+
 def evSexp : SetM.Ev → Sexp
   | .exists_ p => .list [.atom "E", .bytes p]
   | .open_ p => .list [.atom "O", .bytes p]
@@ -270,6 +308,7 @@ def dispatch : Sexp → Sexp
   | .list (.atom "inmem" :: ops) => inmemCmd ops
   | .list [.atom "multi", .list loaders, .list queries] => multiCmd loaders queries
   | .list (.atom "multi-history" :: .atom nl :: ops) => multiHistoryCmd (nl.toNat?.getD 1) ops
+  | .list (.atom "multi-tree" :: .atom nl :: .atom nm :: ops) => multiTreeCmd (nl.toNat?.getD 1) (nm.toNat?.getD 1) ops
   | .list [.atom "exec", store, entry, exts, esc, globals, vars, data, fuel] =>
     execDispatch store entry exts esc globals vars data fuel
   | .list [.atom "lex", .bytes l, .bytes r, .bytes lc, .bytes rc, .bytes input] => lexCmd l r lc rc input
